@@ -79,19 +79,26 @@ Proof. exact unlinking_release_breaks_exclusion. Qed.
 (* ---- what readers can be shown never moves back on the WRITER side either (Storage/UpdaterLife.v) ---- *)
 (* Merge threads and already queued end_merge tasks of a writer that was dropped or rolled back may still run; each would
    save ITS updater's (old) view.  With Drop and rollback killing the updater and save_metas refusing on a killed updater
-   (DROP_KILLS_UPDATER, ROLLBACK_KILLS_UPDATER, SAVE_METAS_CHECKS_ALIVE regenerated from the source): for every sequence of
+   (DROP_KILLS_UPDATER, ROLLBACK_KILLS_UPDATER, SAVE_METAS_CHECKS_ALIVE, SAVE_METAS_LOCKED_AGAINST_KILL regenerated from the
+   source; saves may be atomic or stalled between the liveness check and the write): for every sequence of
    writer creations, commits, drops, rollbacks and arbitrarily late saves by any updater, the generation in meta.json never
    moves back -- a published commit is never overwritten by a stale view, so no reload can go back to an older commit. *)
 Theorem C05_published_commit_never_overwritten : forall evs1 evs2,
   us_meta (fold_left ustep evs1 ust0) <= us_meta (fold_left ustep (evs1 ++ evs2) ust0).
 Proof. exact meta_never_moves_back. Qed.
 Theorem C05_drop_without_kill_loses_a_commit :
-  us_meta (urun_gen false true true [UNew 1; UCommit 1; UGone 1 false; UNew 2; UCommit 2; USave 1]) = 1 /\
-  us_meta (urun_gen true true true [UNew 1; UCommit 1; UGone 1 false; UNew 2; UCommit 2; USave 1]) = 2.
+  us_meta (urun_gen false true true true [UNew 1; UCommit 1; UGone 1 false; UNew 2; UCommit 2; USave 1]) = 1 /\
+  us_meta (urun_gen true true true true [UNew 1; UCommit 1; UGone 1 false; UNew 2; UCommit 2; USave 1]) = 2.
 Proof. exact drop_without_kill_loses_a_commit. Qed.
 Theorem C05_save_without_liveness_check_loses_a_commit :
-  us_meta (urun_gen true true false [UNew 1; UCommit 1; UGone 1 true; UNew 2; UCommit 2; USave 1]) = 1.
+  us_meta (urun_gen true true false true [UNew 1; UCommit 1; UGone 1 true; UNew 2; UCommit 2; USave 1]) = 1.
 Proof. exact save_without_liveness_check_loses_a_commit. Qed.
+(* F052 (fixed in /repo): the liveness check alone is check-then-act -- a save that stalls after it (a slow directory sync) and
+   resumes after the next writer committed; with the save holding a lock that kill() takes too, killing waits for it *)
+Theorem C05_unlocked_save_in_flight_loses_a_commit :
+  us_meta (urun_gen true true true false [UNew 1; UCommit 1; UStall 1; UGone 1 false; UNew 2; UCommit 2; UResume 1]) = 1 /\
+  us_meta (urun_gen true true true true [UNew 1; UCommit 1; UStall 1; UGone 1 false; UNew 2; UCommit 2; UResume 1]) = 2.
+Proof. exact unlocked_save_in_flight_loses_a_commit. Qed.
 
 Print Assumptions C05_reload_opens_succeed.
 Print Assumptions C05_published_commit_never_overwritten.
